@@ -288,6 +288,28 @@ CHECKS['C13'] = dict(
          'compute is C14/C16. Shapes bounded; ground-truth generator as '
          'bounded layer; multi-byte diff encodings are a known finding.',
     design_ref='5/C13', technique=SCEN_TECH, note=SCEN_NOTE, thorough=True)
+CHECKS['C05'] = dict(
+    category='other',
+    text='Scenario obligations, fixed tree shapes with symbolic values: the '
+         'object-model writer calls the streaming writer exactly as the '
+         'specification traversal prescribes (order, omitted empty sections, '
+         'option renaming, defaults) and leaves the tree unchanged; the '
+         'object-model reader builds from a record sequence exactly the '
+         'prescribed tree. Composed with the streaming-layer contracts '
+         '(C01-C04, C09-C12) on paper; the composed round trip over whole '
+         'trees is exercised against an independent serializer by the '
+         'bounded layer.',
+    design_ref='5/C05', technique=SCEN_TECH, note=SCEN_NOTE, thorough=True)
+CHECKS['C06'] = dict(
+    category='other',
+    text='Same two scenario families read the other way round: options are '
+         'kept verbatim minus length by the object-model reader and handed '
+         'back under the right argument names by the object-model writer, so '
+         'byte identity on canonical files follows from C02 (bytes are a '
+         'function of the calls) and C01. Foreign well-formed files '
+         '(accepted => re-serialisable, same contents, fixed point) are '
+         'covered by the bounded layer with the independent C03 generator.',
+    design_ref='5/C06', technique=SCEN_TECH, note=SCEN_NOTE, thorough=True)
 
 NOT_YET = 'check not built yet (work in progress; see DESIGN.md section 5)'
 NA = {}
